@@ -20,6 +20,10 @@ def make_engine(prop: str, steer: List[str]):
         from .engine_c11 import EngineC11
 
         return EngineC11("C11", steer)
+    if prop == "C13":
+        from .engine_c13 import EngineC13
+
+        return EngineC13("C13", steer)
     raise KeyError(prop)
 
 
@@ -39,6 +43,7 @@ NOT_APPLICABLE = {
 }
 
 ENGINES = [
+    {"name": "solver-world/gcp", "path": "sim/engine_c13.py", "serves_properties": ["C13"], "kind_free_text": "GCP samplers under seed search; histories of solves (incl. aborted ones) on one optimizer object with recording/faulting sampler proxy, simulated clock, differential vs. fresh optimizer"},
     {"name": "tensor-history", "path": "sim/engine_a.py", "serves_properties": ["C04", "C19"], "kind_free_text": "seeded read/write histories on a dense+sparse pair vs. a reference model; malformed requests as faults"},
     {"name": "solver-world/cp_apr", "path": "sim/engine_c11.py", "serves_properties": ["C11"], "kind_free_text": "CP-APR under a simulated clock; deadline fired at every iteration boundary"},
 ]
@@ -103,5 +108,30 @@ CHECKS = {
             "order >= 2 (the dense log-likelihood matricises on mode 1)",
             "PQNR's abort 'L-BFGS first iterate is bad' (pinned by the repository's own tests as expected) ends a run and is counted, not reported",
         ],
+    },
+    "C13": {
+        "manifest": {
+            "engine": "solver-world/gcp",
+            "design_ref": "DESIGN.md section 3, engine C, C13",
+            "level_text": "Seeded search over (a) sampler calls on dense / sparse / nearly-full / nearly-empty data with requests from 0 to beyond the supply, judged against the data by an independent lookup (subscripts inside, values equal data, true zeros, one weight per sample, per-stratum weight totals); (b) histories of 2-5 solves on ONE SGD/Adam/Adagrad/LBFGSB object, some aborted by an injected collaborator fault (sampler, loss callable or user callback raising at its k-th call), each returned solve checked for bounds, best-of-trace, trace length (epochs counted independently through the sampler proxy) and compared bit-for-bit with the same solve on a freshly constructed optimizer under the same random stream and a different clock.",
+            "level_note": "Trusted: the loss callables of pyttb.gcp.handles (used by the harness to recompute estimates), harness' own model evaluation, numpy RNG seeding. Semi-stratified zero samples are by definition not rejection-sampled, so the true-zero clause is not applied to them. Runs whose estimates become NaN are counted and excluded from the ordering clauses.",
+            "technique": "deterministic simulation: seeded stream + scripted clock + faulting sampler/loss proxies; history of solves on one object vs. fresh-object reference (differential)",
+        },
+        "level": "exploration",
+        "quick": {"runs": 4000, "wall": 200},
+        "thorough": {"runs": 150000, "wall": 1500},
+        "chunk": 20,
+        "rule": (
+            "one case = one run of kind samplers (3-16 sampler calls), stochastic (2-5 solves on one SGD/Adam/Adagrad "
+            "object) or lbfgsb (2-4 solves on one LBFGSB object), with collaborator faults injected into ~25% of the "
+            "solves. Non-trivial = >= 2 solves returned and checked, or >= 3 sampler triples checked; distinct = "
+            "distinct digest of (configuration, steps, observations)."
+        ),
+        "state_measure": "hash of (optimizer class, loss, sparse?, epochs/iterations, index of the solve on the object, aborted-before flag)",
+        "components": {
+            "real": REAL_ALL,
+            "simulated": ["time module as seen by pyttb.gcp.optimizers and pyttb.gcp_opt (SimClock)", "GCPSampler proxy (recording / faulting)", "loss and gradient callables wrapped (faulting)", "logging/stdout sinks", "np.random seeded per solve"],
+        },
+        "assumptions": ["loss callables of pyttb.gcp.handles are trusted for recomputing estimates"],
     },
 }
